@@ -150,6 +150,22 @@ class StoreEngine:
         return r
 
     # -- replay ----------------------------------------------------------------------------------
+    ONLY = {
+        'C01': 'read,contains,ret.,panic,error',
+        'C02': 'all_wm,read_all,read_with,ret.,counts.records,panic,error',
+        'C03': 'read,contains,all_wm,read_with,counts.next_blob_id,ret.,panic,error',
+        'C04': 'read,contains,all_wm,read_with,ret.,panic,error',
+        'C07': 'blob_bytes,ret.,panic,error',
+        'C10': 'check_filter,filter,ret.,panic,error',
+        'C12': 'ret.,panic,error',
+        'C13': 'worker_alive,close,counts.blobs,counts.detailed,counts.active,counts.records,ret.,panic,error',
+        'C15': 'counts.,ret.,panic,error',
+    }
+
+    def only_arg(self):
+        o = self.ONLY.get(self.run.prop)
+        return ['--only', o] if o else []
+
     def replay(self, tlc_out, hcfgs, nkeys, shards=None, limit=None, tag=''):
         """Distribute behaviour lines over shard files, run one replay process per shard."""
         shards = shards or min(NCPU, 14)
@@ -171,7 +187,7 @@ class StoreEngine:
             h['seed'] = self.run.seed * 1000 + i
             out = os.path.join(self.run.work, 'replay%s-%d.out' % (tag, i))
             err = os.path.join(self.run.work, 'replay%s-%d.err' % (tag, i))
-            p = subprocess.Popen([os.path.join(BIN, 'replay'), '--cfg', json.dumps(h), '--nkeys', str(nkeys)],
+            p = subprocess.Popen([os.path.join(BIN, 'replay'), '--cfg', json.dumps(h), '--nkeys', str(nkeys)] + self.only_arg(),
                                  stdin=open(files[i].name), stdout=open(out, 'w'), stderr=open(err, 'w'))
             procs.append((p, out, h))
         mismatches = []
